@@ -1751,6 +1751,12 @@ where
             if is_ident_string_data_type(self.state.cddl, ident)
               || is_ident_numeric_data_type(self.state.cddl, ident)
             {
+              // The target type itself has to match before the control is applied
+              let error_count = self.errors.len();
+              self.visit_type2(target)?;
+              if self.errors.len() != error_count {
+                return Ok(());
+              }
               return self.visit_type2(controller);
             }
           }
